@@ -139,3 +139,20 @@ def cli_stdin_split(repo):
         'def stdinSplitSeparators : List String := %s' % lean_list(lean_str(s) for s in seps),
         'def stdinSplitLiterals : List String := %s' % lean_list(lean_str(v) for _l, _c, v in sorted(lits)),
     ])
+
+
+@extractor
+def parser_docstring_rule(repo):
+    """the rule `docstring : STRING` of the grammar (`p_docstring_string`): its production and its statements, unparsed
+    (the per-line `rstrip` that Model/DocTrim.lean follows)"""
+    cls = _class(parse(repo, 'stone/frontend/parser.py'), 'ParserFactory')
+    fn = _func(cls.body, 'p_docstring_string')
+    prod, stmts = '', []
+    if fn is not None:
+        prod = ' '.join((ast.get_docstring(fn, clean=False) or '').split())
+        body = fn.body[1:] if ast.get_docstring(fn, clean=False) is not None else fn.body
+        stmts = [ast.unparse(st) for st in body]
+    return '\n'.join([
+        'def parserDocstringProduction : String := %s' % lean_str(prod),
+        'def parserDocstringStatements : List String := %s' % lean_list(lean_str(s) for s in stmts),
+    ])
